@@ -234,7 +234,37 @@ def check(chk, fb, rid, select, floor=1, skip=()):
                 if rb is not None and fb_ is not None and (cfg.dominates(rb, fb_)):
                     ok = True
             construct = "assign-resets:" + fld
+            # ... and on every path to the normal exit, not only in front of the re-population: an early 'return *this' taken for
+            # some sources (an empty one) leaves the old elements in place.  The self-assignment test is the one legitimate early exit
+            skipped = None
             if ok:
+                from . import e1 as _e1
+                rblocks = {cfg.stmt_block(r) for r in resets + helper + whole if cfg.stmt_block(r) is not None}
+                selfedges = set()
+                for b_ in cfg.blocks:
+                    for s_ in cfg.succ[b_]:
+                        for t_, tr_, nd_ in _e1.edge_facts(cfg, b_, s_):
+                            if "this" in t_ and "&" in t_ and (("==" in t_ and tr_) or ("!=" in t_ and tr_ is False)):
+                                selfedges.add((b_, s_))
+
+                class _V:
+                    pass
+                view = _V()
+                view.entry, view.exit, view.blocks = cfg.entry, cfg.exit, cfg.blocks
+                view.succ = {b_: [s_ for s_ in cfg.succ[b_] if (b_, s_) not in selfedges] for b_ in cfg.succ}
+                view.is_throw_block = cfg.is_throw_block
+                try:
+                    okp, path = _e1.must_pass(view, rblocks)
+                except Exception:
+                    okp, path = True, None
+                if not okp:
+                    skipped = path
+            if ok and skipped is not None:
+                rets = [x for x in walk(A.body) if x["k"] == "ReturnStmt" and cfg.stmt_block(x) in (skipped or [])]
+                chk.refuted(rid, A.key, construct, A.loc(rets[0]) if rets else A.loc(),
+                            "%s::operator= can return without emptying '%s' (an early exit that is not the self-assignment test): for such a source the target keeps its old elements and is not equal to what was assigned" % (short, fld),
+                            witness={"history": "assign an empty object to a non-empty one", "blocks": skipped})
+            elif ok:
                 chk.proved(rid, A.key, construct, A.loc(first), "%s is emptied / sized from the source before it is re-populated" % fld)
             else:
                 chk.refuted(rid, A.key, construct, A.loc(first), "%s::operator= re-populates '%s' element by element without first emptying it or sizing it from the source: entries of the previous value survive the assignment" % (short, fld),
